@@ -260,7 +260,8 @@ func (ww *conversionVisitor) visitOneofNode(node *sourcewalk.OneofNode) {
 	schema := node.Schema
 	if schema.Name == "" {
 		if ww.field == nil {
-			ww.addErrorf(node.Source, "missing object name")
+			ww.addErrorf(node.Source, "missing oneof name")
+			return
 		}
 		schema.Name = strcase.ToCamel(ww.field.name)
 	}
